@@ -49,6 +49,26 @@ pub fn render(decls: &[Decl], dflt: u32, entry: &str, tg: (u32, u32, u32), uses:
         if second_pipeline { s += "Pipeline Second { ComputeShader = OTHER; }\n"; }
         return s;
     }
+    if entry == "TASKMESH" || entry == "MESH" {
+        // mesh pipelines: the task (or mesh) stage mentions U directly, the mesh (or pixel) stage reaches H through the
+        // helper; both thread-group stages carry a numthreads attribute the metadata has to repeat
+        s += "struct VA { float4 position : SV_Position; };\nstruct Payload { uint start; };\ngroupshared Payload lds_payload;\n";
+        let mut direct = String::new();
+        for i in uses.iter().filter(|i| usable(i)) { direct += " "; direct += &use_stmt(*i, &decls[*i]); }
+        if entry == "TASKMESH" {
+            s += &format!("[numthreads({}, {}, {})] void TSMAIN(uint3 dtid : SV_DispatchThreadID) {{{} lds_payload.start = dtid.x; DispatchMesh(1u, 1u, 1u, lds_payload); }}\n", tg.0, tg.1, tg.2, direct);
+            s += "[numthreads(32, 1, 1)] [outputtopology(\"triangle\")] void MSMAIN(uint3 dtid : SV_DispatchThreadID, in payload Payload data, out vertices VA o_v[32], out indices uint3 o_t[32]) { helper(); SetMeshOutputCounts(32, 32); VA v; v.position = float4(data.start, 0, 0, 1); o_v[dtid.x] = v; o_t[dtid.x] = uint3(0, 1, 2); }\n";
+            s += "float4 PSMAIN(float4 pos : SV_Position) : SV_Target0 { return pos; }\n";
+            s += "[numthreads(1, 1, 1)] void OTHER() { }\n";
+            s += &format!("Pipeline Main {{ TaskShader = TSMAIN; MeshShader = MSMAIN; PixelShader = PSMAIN; DefaultBindGroup = {}; }}\n", dflt);
+        } else {
+            s += &format!("[numthreads({}, {}, {})] [outputtopology(\"triangle\")] void MSMAIN(uint3 dtid : SV_DispatchThreadID, out vertices VA o_v[32], out indices uint3 o_t[32]) {{{} SetMeshOutputCounts(32, 32); VA v; v.position = float4(0, 0, 0, 1); o_v[dtid.x] = v; o_t[dtid.x] = uint3(0, 1, 2); }}\n", tg.0, tg.1, tg.2, direct);
+            s += "float4 PSMAIN(float4 pos : SV_Position) : SV_Target0 { helper(); return pos; }\n";
+            s += "[numthreads(1, 1, 1)] void OTHER() { }\n";
+            s += &format!("Pipeline Main {{ MeshShader = MSMAIN; PixelShader = PSMAIN; DefaultBindGroup = {}; }}\n", dflt);
+        }
+        return s;
+    }
     s += &format!("[numthreads({}, {}, {})] void {}() {{ helper();", tg.0, tg.1, tg.2, entry);
     for i in uses.iter().filter(|i| usable(i)) { s += " "; s += &use_stmt(*i, &decls[*i]); }
     s += " }\n";
@@ -109,7 +129,7 @@ pub fn gen_cases(seed: u64, n: usize, _thorough: bool) -> Vec<String> {
         let u = pick(&mut rng);
         let h = pick(&mut rng);
         let mode = ["all", "name", "nopipe", "one"][rng.below(4) as usize];
-        let entry = if rng.chance(1, 4) { "VSPS" } else if rng.chance(1, 3) { *rng.pick(&entries) } else { "CSMAIN" };
+        let entry = if rng.chance(1, 4) { "VSPS" } else if rng.chance(1, 6) { *rng.pick(&["TASKMESH", "MESH"]) } else if rng.chance(1, 3) { *rng.pick(&entries) } else { "CSMAIN" };
         let tg = (rng.range(1, 8), rng.range(1, 4), rng.range(1, 2));
         let ds: Vec<String> = decls.iter().map(|d| d.word()).collect();
         out.push(format!("{} {} {} {} {} {} {} U{} H{} {}", target, rng.below(3), mode, entry, tg.0, tg.1, tg.2, u, h, ds.join(" ")).trim_end().to_string());
